@@ -1362,6 +1362,7 @@ func run(c *core.Ctx) {
 	log.SetOutput(io.Discard)
 	fixed := time.Date(2020, 1, 10, 0, 0, 0, 0, time.UTC)
 	astisub.Now = func() time.Time { return fixed }
+	metaDropRun(c)
 	r := &runner{c: c}
 	thorough := c.Tier == core.Thorough
 	stop := false
@@ -1862,6 +1863,9 @@ func endState(codes []byte) stl.Style {
 
 func replay(sub string, raw json.RawMessage) (string, bool) {
 	log.SetOutput(io.Discard)
+	if sub == "metadrop" {
+		return metaDropReplay(raw)
+	}
 	var cs Case
 	if err := json.Unmarshal(raw, &cs); err != nil {
 		return err.Error(), false
